@@ -40,6 +40,9 @@ var (
 	zzWires []zzWire
 )
 
+// zzRouteAnswer, when set, answers every request (see probe.go)
+var zzRouteAnswer func(req *http.Request) int
+
 type zzBuf struct {
 	w       interface{} // the io.Writer the encoder was created over
 	content interface{}
@@ -79,6 +82,15 @@ func zzClientDo(c *http.Client, req *http.Request) (*http.Response, error) {
 		}
 	}
 	w.outcome = zzOutcome
+	if zzRouteAnswer != nil {
+		// answered by the replica's route table: 0 = no connection, else the status
+		st := zzRouteAnswer(req)
+		zzWires = append(zzWires, w)
+		if st == 0 {
+			return nil, errors.New("zz: connection refused")
+		}
+		return &http.Response{StatusCode: st, Status: "status", Body: zzBody{&zzClosed}}, nil
+	}
 	if len(zzWires) > 0 {
 		// a further request over the same connection pool has an outcome of its own
 		w.outcome = zzConcretize(zzChoice("outcome.again", 5))
